@@ -535,7 +535,7 @@ def run(ctx):
                 "at interval scope, must/may sandwich above); non-trivial = "
                 "distinct (scope, method, result size, stepped?, ...)")
     tie = core.BatchTie(ctx, "index", "index", flush_at=60)
-    n = ctx.scale(120, 6000)
+    n = ctx.scale(250, 6000)
     for h in range(n):
         run_history(ctx, h, ctx.scale(40, 60), tie,
                     ctx.rng.choice([0.15, 0.4, 1.0]))
@@ -564,7 +564,7 @@ def run_sym(ctx, n=None):
     size), every scope's symbolic_expressions_at against the may/must
     sandwich and against the Lean model `SymScopes` (exact)."""
     tie = core.BatchTie(ctx, "symscopes", "symscopes", flush_at=60)
-    for h in range(n or ctx.scale(80, 3000)):
+    for h in range(n or ctx.scale(150, 3000)):
         run_history(ctx, 5 * 10**5 + h, ctx.scale(40, 60), tie,
                     ctx.rng.choice([0.3, 0.6, 1.0]), sym=True)
         if len(ctx.violations) >= 3:
